@@ -270,3 +270,10 @@ claim("C36", IRJ,
       "variable standing for them after SSA renaming - must coincide.",
       "TLC; functions without calls; x86-32; two recorded known findings of the SSA pipeline (loop-carried assignments; dropped "
       "redundant stores)", "DESIGN.md 5/C36", "IRJudge")
+
+claim("C40", IRJ,
+      "Random structured x86-32 functions are lifted; propagate_cst_expr (with the architecture's <reg>_init table) rewrites the graph "
+      "in place and TLC runs original and rewritten graph on IRMachine.tla from initial states in which every register and flag "
+      "holds its initial value: same ordered byte-write log, same exit, same value in every general register and flag.",
+      "TLC; functions without calls; x86-32; one recorded known finding (memory reads through constant pointers are propagated as "
+      "constants past later stores)", "DESIGN.md 5/C40", "IRJudge")
